@@ -66,7 +66,12 @@ def eval(
 
 def load(path: Union[str, DDSPath, pathlib.Path]) -> Any:
     path_ = DDSPathUtils.create(path)
-    key = _store().fetch_paths([path_]).get(path_)
+    key: Optional[PyHash] = None
+    if _eval_ctx is not None:
+        # Inside an evaluation: a path kept by this evaluation is not committed yet
+        key = _eval_ctx.requested_paths.get(path_)
+    if key is None:
+        key = _store().fetch_paths([path_]).get(path_)
     if key is None:
         raise DDSException(f"The store {_store()} did not return path {path_}")
     else:
